@@ -365,24 +365,44 @@ def eval_bodies(cases, wd, per_module=250):
     with open(os.path.join(crate, "Cargo.toml"), "w") as f:
         f.write(EVAL_CARGO % REPO)
     shutil.copy(os.path.join(HARNESS, "Cargo.lock"), os.path.join(crate, "Cargo.lock"))
+    def gen(mods_, tag):
+        jobs = []
+        for m, cs in enumerate(mods_):
+            g = "grammar;\npub S: Vec<crate::Tk> = {\n"
+            for j, c in enumerate(cs):
+                g += '  "k%d" => toks!(%s%s),\n' % (j, c["text"], "\n" if c["nl"] else "")
+            g += "};\n"
+            p = os.path.join(src, "%s%d.lalrpop" % (tag, m))
+            with open(p, "w") as f:
+                f.write(g)
+            jobs.append({"id": "%s%d" % (tag, m), "file": p, "timeout_s": 120})
+        return lp.run_jobs(jobs, wd)
+
     mods = [cases[i:i + per_module] for i in range(0, len(cases), per_module)]
-    jobs = []
+    res = gen(mods, "q")
+    failed = []      # (case, lpdrv result) of bodies LALRPOP does not take inside toks!( )
+    keep = []
     for m, cs in enumerate(mods):
-        g = "grammar;\npub S: Vec<crate::Tk> = {\n"
+        if res["q%d" % m]["status"] == "ok":
+            keep += cs
+            continue
+        singles = gen([[c] for c in cs], "s%d_" % m)
         for j, c in enumerate(cs):
-            g += '  "k%d" => toks!(%s%s),\n' % (j, c["text"], "\n" if c["nl"] else "")
-        g += "};\n"
-        p = os.path.join(src, "p%d.lalrpop" % m)
-        with open(p, "w") as f:
-            f.write(g)
-        jobs.append({"id": "p%d" % m, "file": p, "timeout_s": 120})
-    res = lp.run_jobs(jobs, wd)
-    failed = []
+            r1 = singles["s%d_%d" % (m, j)]
+            if r1["status"] == "ok":
+                keep.append(c)
+            else:
+                failed.append((c, r1))
+    for f in os.listdir(src):
+        os.remove(os.path.join(src, f))
+    mods = [keep[i:i + per_module] for i in range(0, len(keep), per_module)]
+    res = gen(mods, "p")
     okmods = []
     for m, cs in enumerate(mods):
         r = res["p%d" % m]
         if r["status"] != "ok":
-            failed.append((m, cs, r))
+            # every body is accepted alone but the batch is not: report the batch as a whole
+            failed.append(({"ids": [], "mode": "batch", "text": "<%d bodies>" % len(cs), "batch": cs}, r))
         else:
             okmods.append(m)
     main = EVAL_MAIN.replace("MODS", "\n".join(
@@ -462,10 +482,16 @@ def check(tier, seed):
             # rustc rejects text that the specification says is a sequence of Rust tokens: the
             # catalogue (spec) or the harness template is wrong -- not a verdict about LALRPOP
             raise ToolError("codeeval does not compile:\n" + err[-3000:])
-        for m, cs, r in failed:
-            rep.violation("kind=code_scan item=combination mode=%s ctx=macro_arguments" % r["status"],
-                          "LALRPOP %s a grammar whose actions are toks!(BODY) for bodies it handles alone: %s" % (
-                              r["status"], diag(r)), {"engine": "codeeval", "cases": cs})
+        alone_bad = {u["ids"][0] for u, v in zip(units, verdict) if len(u["ids"]) == 1 and not v["ok"]}
+        for c, r in failed:
+            blamed = sorted({i for i in c["ids"] if i in alone_bad})
+            facts = [item_facts(cat[i - 1]) for i in blamed] or [
+                "item=combination classes=%s" % "+".join(sorted({cat[i - 1]["c"] for i in c["ids"]}))]
+            for f in facts:
+                rep.violation("kind=code_scan %s mode=%s ctx=macro_arguments" % (f, "rejected" if r["status"] == "err" else r["status"]),
+                              "action code `toks!(%s)`: the specification says the macro arguments are exactly this text; LALRPOP "
+                              "rejects the grammar: %s" % (c["text"], diag(r)),
+                              {"engine": "codeeval", "cases": c.get("batch") or [c]})
         nbad = 0
         for c, got in out:
             rep.case({"eval": c["ids"], "mode": c["mode"]})
